@@ -40,11 +40,14 @@ var idPool = []string{"alice", "alice_1", "Alice", "bob 2-x", "x_storage", "k_hm
 
 const maxOps = 25
 
+// maxOpsBin bounds the histories that run one acra-keys process per write and per listing.
+const maxOpsBin = 12
+
 func genCase(t *rapid.T, fixture string) Case {
 	c := Case{Fixture: fixture}
 	// every rapid.Check of a process starts from the same seed; consuming a fixture-specific number
 	// of values first gives each fixture its own histories
-	for i, f := range kshist.FixtureNames {
+	for i, f := range append(append([]string(nil), kshist.FixtureNames...), kshist.CLIFixtureNames...) {
 		if f == fixture {
 			for j := 0; j < i; j++ {
 				rapid.Uint64().Draw(t, "salt")
@@ -53,7 +56,11 @@ func genCase(t *rapid.T, fixture string) Case {
 	}
 	c.IDs = rapid.SliceOfNDistinct(rapid.SampledFrom(idPool), 1, 3, rapid.ID[string]).Draw(t, "ids")
 	c.Probe = rapid.SliceOfN(rapid.Byte(), 1, 48).Draw(t, "probe")
-	c.Ops = kshist.GenOps(t, maxOps, c.IDs)
+	n := maxOps
+	if strings.HasSuffix(fixture, "/bin") {
+		n = maxOpsBin
+	}
+	c.Ops = kshist.GenOps(t, n, c.IDs)
 	return c
 }
 
@@ -130,6 +137,11 @@ func Check(c Case) (hx.Vs, *kshist.Result) {
 		},
 	}
 	res := kshist.Run(fx, c.Ops, hooks)
+	for _, v := range res.Vs {
+		if strings.Contains(v.Msg, "harness: ") && res.Discard == "" {
+			res.Discard = "harness: " + v.Msg // the tool could not be started: inconclusive, never a violation
+		}
+	}
 	return res.Vs, res
 }
 
@@ -166,6 +178,12 @@ func counts(fixture string) (int, int) {
 		return 200, 2400
 	case "v2/dir":
 		return 40, 500
+	case "v1/cmd":
+		return 60, 800
+	case "v2/cmd":
+		return 25, 300
+	case "v1/bin", "v2/bin":
+		return 3, 40
 	}
 	return 100, 1200
 }
@@ -276,8 +294,17 @@ var best = map[string]*failing{}
 
 // TestHistory runs generated histories on every fixture (one rapid property per fixture, so that a
 // finding in one format does not hide the others).
-func TestHistory(t *testing.T) {
-	for _, fixture := range kshist.FixtureNames {
+func TestHistory(t *testing.T) { runFixtures(t, kshist.FixtureNames) }
+
+// TestCommandHistory runs the same histories with the writes and listings going through the acra-keys tool:
+// `generate`, `destroy --index N <key id>` and `list --rotated-keys --json` as the subcommands parse and
+// execute them in-process (v1/cmd, v2/cmd) and as processes of the real binary built from the tree under
+// test (v1/bin, v2/bin). The index an operator reads in the listing printed by the tool must destroy exactly
+// that generation of exactly that key.
+func TestCommandHistory(t *testing.T) { runFixtures(t, kshist.CLIFixtureNames) }
+
+func runFixtures(t *testing.T, fixtures []string) {
+	for _, fixture := range fixtures {
 		fixture := fixture
 		t.Run(strings.NewReplacer("/", "-", "=", "-").Replace(fixture), func(t *testing.T) {
 			name := testName(fixture)
@@ -314,7 +341,7 @@ func TestHistory(t *testing.T) {
 
 func TestReplay(t *testing.T) {
 	h := map[string]hx.ReplayHandler{"TestHistory": replayCase}
-	for _, f := range kshist.FixtureNames {
+	for _, f := range append(append([]string(nil), kshist.FixtureNames...), kshist.CLIFixtureNames...) {
 		h[testName(f)] = replayCase
 	}
 	R.Replay(t, h)
